@@ -53,7 +53,7 @@ def _run_tie(name, sources, translate, gen_file, proofs_file, prefix):
         printed = re.findall(r"^Print Assumptions\s+(\w+)", proofs_src, re.M)
         assum = {}
         for n, b in zip(printed, blocks):
-            assum[n] = [] if b.startswith("Closed") else re.findall(r"^([\w.]+)\s*:", b, re.M)
+            assum[n] = [] if b.startswith("Closed") else [a for a in re.findall(r"^([\w.]+)\s*:", b, re.M) if a != "Axioms"]
         res["theorems"] = [{"name": prefix + n, "checked": True, "assumptions": assum.get(n)} for n in names]
         res["ok"] = True
         res["stage"] = "done"
